@@ -198,6 +198,61 @@ theorem C06_mcb_dsc_nonneg_abstract (sf : SF K) (fn : Option (Option Functional)
   exact dec_row_signs sf f lv' S dom ys w hS hopt hup hallowed marg sm hm2 (hmarg marg hm1) x
     (hcols x hx) r hrow
 
+/-- `mcb ≥ 0`, abstractly (first half of `C06_mcb_dsc_nonneg_abstract`) -/
+theorem C06_mcb_nonneg_abstract (sf : SF K) (fn : Option (Option Functional)) (lv : Option K)
+    (ys : List K) (cols : List (List K)) (w : Option (List K)) (rows : List (DecompRow K))
+    (h : decompose sf fn lv ys cols w = .ok rows)
+    (f : Functional) (lv' : K) (hv : dec_validate sf fn lv = .ok (f, lv'))
+    (S : K → K → K) (dom : K → Prop)
+    (hS : ∀ y ∈ ys, ∀ z, dom z → sfPair sf y z = .ok (S y z))
+    (hopt : dec_FitOpt f lv' S dom ys) (hup : ∀ v, (∃ a ∈ ys, a ≤ v) → dom v)
+    (hallowed : dec_yminAllowed sf ys w = true)
+    (hmarg : ∀ m, functionalVal f lv' ys w = .ok m → dom m)
+    (hcols : ∀ x ∈ cols, ∀ z ∈ x, dom z) : ∀ r ∈ rows, 0 ≤ r.mcb :=
+  fun r hr => (C06_mcb_dsc_nonneg_abstract sf fn lv ys cols w rows h f lv' hv S dom hS hopt hup
+    hallowed hmarg hcols r hr).1
+
+/-- `dsc ≥ 0`, abstractly (second half) -/
+theorem C06_dsc_nonneg_abstract (sf : SF K) (fn : Option (Option Functional)) (lv : Option K)
+    (ys : List K) (cols : List (List K)) (w : Option (List K)) (rows : List (DecompRow K))
+    (h : decompose sf fn lv ys cols w = .ok rows)
+    (f : Functional) (lv' : K) (hv : dec_validate sf fn lv = .ok (f, lv'))
+    (S : K → K → K) (dom : K → Prop)
+    (hS : ∀ y ∈ ys, ∀ z, dom z → sfPair sf y z = .ok (S y z))
+    (hopt : dec_FitOpt f lv' S dom ys) (hup : ∀ v, (∃ a ∈ ys, a ≤ v) → dom v)
+    (hallowed : dec_yminAllowed sf ys w = true)
+    (hmarg : ∀ m, functionalVal f lv' ys w = .ok m → dom m)
+    (hcols : ∀ x ∈ cols, ∀ z ∈ x, dom z) : ∀ r ∈ rows, 0 ≤ r.dsc :=
+  fun r hr => (C06_mcb_dsc_nonneg_abstract sf fn lv ys cols w rows h f lv' hv S dom hS hopt hup
+    hallowed hmarg hcols r hr).2
+
+/-- the analytic heart in one line: for the training rows `(X, y, w)` of a successful `fit` and any
+score `S` that the isotonic fit minimises, the recalibrated forecasts have a total weighted score
+`≤` that of `g ∘ X` for **every** non-decreasing `g` — in particular (`g = id`) of the forecasts
+themselves and (`g` constant) of every constant forecast -/
+theorem C06_recal_optimal (f : Functional) (lv : K) (S : K → K → K) (dom : K → Prop)
+    (X y : List K) (w : Option (List K)) (tx ty : List K)
+    (h : isoFit (some f) lv true X y w = .ok (tx, ty)) (hopt : dec_FitOpt f lv S dom y) :
+    (∀ g : K → K, Monotone g → (∀ x ∈ X, dom (g x)) →
+      total (dec_wS S) (y.zip (dec_wts y w)) (X.map (interp tx ty))
+        ≤ total (dec_wS S) (y.zip (dec_wts y w)) (X.map g)) ∧
+    ((∀ x ∈ X, dom x) →
+      total (dec_wS S) (y.zip (dec_wts y w)) (X.map (interp tx ty))
+        ≤ total (dec_wS S) (y.zip (dec_wts y w)) X) ∧
+    (∀ c, dom c →
+      total (dec_wS S) (y.zip (dec_wts y w)) (X.map (interp tx ty))
+        ≤ total (dec_wS S) (y.zip (dec_wts y w)) (X.map fun _ => c)) :=
+  ⟨fun g hg hd => dec_recal_le h hopt g hg hd, fun hd => dec_recal_le_forecast h hopt hd,
+    fun c hc => dec_recal_le_const h hopt c hc⟩
+
+/-- … and every order-sensitive score (`OSScore`) of an identifiable functional whose generalised
+PAVA is the fit (`dec_GpavaFit`: `dec_gpavaFit_mean`, `dec_gpavaFit_expectile`) is such an `S` -/
+theorem C06_fitOpt_of_order_sensitive (F : IdFun K) (Sc : OSScore F) (f : Functional) (lv : K)
+    (hfit : dec_GpavaFit f lv F.T) (S : K → K → K) (hS : ∀ o z, Sc.S o z = o.2 * S o.1 z)
+    (ys : List K) (hok : ∀ y ∈ ys, ∀ v, 0 < v → F.ok (y, v))
+    (hdom : ∀ v, (∃ a ∈ ys, a ≤ v) → Sc.dom v) : dec_FitOpt f lv S Sc.dom ys :=
+  dec_fitOpt_of_gpava Sc hfit S hS ys hok hdom
+
 /-- **Squared error: `mcb ≥ 0` and `dsc ≥ 0`**, over any ordered field, for every data set, every
 (necessarily positive, or absent) weights and every forecast matrix — with `functional` inferred or
 given as `"mean"`, any `level`.  `min y` is always admissible for the squared error, so there is no
@@ -256,9 +311,14 @@ theorem C06_recal_of_constant (sf : SF K) (f : Functional) (lv : K) (hm : f ≠ 
   obtain ⟨tx, ty, hfit, rfl⟩ := dec_recal_ok_allowed hallowed hrec
   exact dec_recal_const_marginal hm hfit hc hmarg
 
-/-- **`mcb = 0` when recalibration leaves the forecasts unchanged** (`recal = x`): every score
-object, every functional. -/
-theorem C06_mcb_zero_of_fixed (sf : SF K) (fn : Option (Option Functional)) (lv : Option K)
+/-- **`mcb = 0` for forecasts that are already isotonic-recalibrated**, in the form "recalibration
+leaves the forecasts unchanged" (`recal = x`): every score object, every functional.  That the
+recalibration `x = recal(X₀)` of *any* forecast `X₀` is such a forecast as far as the average
+score is concerned — `S̄(y, recal(x)) = S̄(y, x)` — is the substantive part:
+`C06_mcb_zero_of_recalibrated_abstract` (any score the isotonic fit minimises), with the instances
+`C06_mcb_zero_of_recalibrated_squared_error`, `C06_zero_and_best_pinball`,
+`C06_zero_and_best_hes_family`. -/
+theorem C06_mcb_zero_of_recalibrated (sf : SF K) (fn : Option (Option Functional)) (lv : Option K)
     (ys : List K) (cols : List (List K)) (w : Option (List K)) (rows : List (DecompRow K))
     (h : decompose sf fn lv ys cols w = .ok rows)
     (f : Functional) (lv' : K) (hv : dec_validate sf fn lv = .ok (f, lv'))
@@ -323,4 +383,310 @@ theorem C06_dsc_zero_of_constant_squared_error (sf : SF K) (hk : sf.kind = .squa
   C06_dsc_zero_of_constant sf fn lv ys cols w rows h
     (dec_yminAllowed_of_ok sf ys w _ (dec_sfPair_sq sf hk he _ _)) i hi hr hc
 
+/-! ## 5. The library scores at `ℝ` (`np.power ↦ Real.rpow`, `np.log ↦ Real.log`) -/
+
+/-- **Pinball loss: `mcb ≥ 0` and `dsc ≥ 0`** (inferred functional `quantile` at the score's level;
+every prediction is admissible, so there is no proviso; weights must be absent for the call to
+succeed at all). -/
+theorem C06_nonneg_pinball (sf : SF ℝ) (hk : sf.kind = .pinball) (he : sf.elem = none)
+    (hα : 0 < sf.α ∧ sf.α < 1) (ys : List ℝ) (cols : List (List ℝ)) (w : Option (List ℝ))
+    (rows : List (DecompRow ℝ)) (h : decompose sf none none ys cols w = .ok rows) :
+    ∀ r ∈ rows, 0 ≤ r.mcb ∧ 0 ≤ r.dsc :=
+  C06_mcb_dsc_nonneg_abstract sf none none ys cols w rows h .quantile sf.α
+    (dec_validate_pinball sf hk he hα)
+    (fun y z => ((if y ≤ z then (1 : ℝ) else 0) - sf.α) * (z - y)) (fun _ => True)
+    (fun y _ z _ => dec_sfPair_pinball sf hk he hα y z)
+    (dec_fitOpt_pinball sf.α hα.1 hα.2 ys) (fun _ _ => trivial)
+    (dec_yminAllowed_of_ok sf ys w _ (dec_sfPair_pinball sf hk he hα _ _)) (fun _ _ => trivial)
+    (fun _ _ _ _ => trivial)
+
+/-- **The whole homogeneous expectile family — `HomogeneousExpectileScore(degree=h, level=α)` for
+every real degree and every level in `(0,1)`, `SquaredError`, `PoissonDeviance`, `GammaDeviance` —
+has `mcb ≥ 0` and `dsc ≥ 0` whenever the smallest observation is an admissible prediction** (the
+model's flag `yminAllowed`; e.g. for the Poisson deviance: no zero counts).  Functional and level
+are inferred (mean for level 1/2, else the `α`-expectile).  `dec_IsHES sf h α` says that `sf` is one
+of the four classes with effective degree `h` and level `α`. -/
+theorem C06_nonneg_hes_family (sf : SF ℝ) (h α : ℝ) (hs : dec_IsHES sf h α) (ys : List ℝ)
+    (cols : List (List ℝ)) (w : Option (List ℝ)) (rows : List (DecompRow ℝ))
+    (hd : decompose sf none none ys cols w = .ok rows)
+    (hallowed : dec_yminAllowed sf ys w = true) : ∀ r ∈ rows, 0 ≤ r.mcb ∧ 0 ≤ r.dsc :=
+  dec_hes_signs hs ys cols w rows hd hallowed
+
+/-- what the flag means for this family: `(y[0], min y)` is in the domain of the score, i.e.
+`min y` is an admissible prediction (and `y[0]` an admissible observation) -/
+theorem C06_yminAllowed_hes_family (sf : SF ℝ) (h α : ℝ) (hs : dec_IsHES sf h α) (ys : List ℝ)
+    (w : Option (List ℝ)) :
+    dec_yminAllowed sf ys w = true ↔ hesDom h ys[0]! (ys.foldl min ys[0]!) := by
+  rw [dec_yminAllowed_iff]
+  constructor
+  · intro hok
+    obtain ⟨v, hv⟩ := (dec_sfPair_spec sf _ _).1 hok
+    by_contra hn
+    rw [(dec_sfPair_hes hs _ _).2 hn] at hv
+    cases hv
+  · intro hd
+    by_contra hn
+    have := (dec_sfPair_hes hs ys[0]! (ys.foldl min ys[0]!)).1 hd
+    rw [(dec_sfPair_spec sf _ _).2 hn] at this
+    cases this
+
+/-! ## 6. `unc` is the score of the *best* constant forecast -/
+
+/-- **`unc ≤` the average score of every admissible constant forecast** (generic form; same setting
+as `C06_mcb_dsc_nonneg_abstract`, no proviso on `min y` needed).  The marginal functional is the
+recalibration of a constant forecast (`dec_recal_const_marginal`), and recalibration beats every
+constant. -/
+theorem C06_unc_best_constant_abstract (sf : SF K) (fn : Option (Option Functional))
+    (lv : Option K) (ys : List K) (cols : List (List K)) (w : Option (List K))
+    (rows : List (DecompRow K)) (h : decompose sf fn lv ys cols w = .ok rows)
+    (f : Functional) (lv' : K) (hv : dec_validate sf fn lv = .ok (f, lv'))
+    (S : K → K → K) (dom : K → Prop)
+    (hS : ∀ y ∈ ys, ∀ z, dom z → sfPair sf y z = .ok (S y z))
+    (hopt : dec_FitOpt f lv' S dom ys)
+    (hmarg : ∀ m, functionalVal f lv' ys w = .ok m → dom m)
+    (c s : K) (hc : dom c) (hs : sfMean sf ys (ys.map fun _ => c) w = .ok s) :
+    ∀ r ∈ rows, r.unc ≤ s := by
+  obtain ⟨f', lv'', marg, sm, hv', _, hm, hrows⟩ := (dec_ok_iff sf fn lv ys cols w rows).mp h
+  rw [hv] at hv'
+  cases hv'
+  obtain ⟨hm1, hm2⟩ := dec_marginal_ok hm
+  intro r hr
+  obtain ⟨x, _, hrow⟩ := dec_mapM_mem hrows hr
+  obtain ⟨_, _, _, _, _, _, he⟩ := (dec_row_ok sf f lv' ys w sm x r).mp hrow
+  rw [he]
+  exact dec_unc_best_const sf f lv' (dec_validate_ne_median hv) S dom ys w hS hopt marg sm hm1 hm2
+    (hmarg marg hm1) x r hrow c s hc hs
+
+/-- **Squared error: `unc` is the smallest average score of a constant forecast** -/
+theorem C06_unc_best_constant_squared_error (sf : SF K) (hk : sf.kind = .squaredError)
+    (he : sf.elem = none) (fn : Option (Option Functional))
+    (hfn : fn = none ∨ fn = some (some .mean)) (lv : Option K) (ys : List K)
+    (cols : List (List K)) (w : Option (List K)) (rows : List (DecompRow K))
+    (h : decompose sf fn lv ys cols w = .ok rows) (c s : K)
+    (hs : sfMean sf ys (ys.map fun _ => c) w = .ok s) : ∀ r ∈ rows, r.unc ≤ s := by
+  obtain ⟨l, hv⟩ := dec_validate_sq sf hk he fn hfn lv
+  exact C06_unc_best_constant_abstract sf fn lv ys cols w rows h .mean l hv
+    (fun y z => (z - y) * (z - y)) (fun _ => True)
+    (fun y _ z _ => dec_sfPair_sq sf hk he y z) (dec_fitOpt_sq l ys) (fun _ _ => trivial) c s
+    trivial hs
+
+/-- **Pinball loss: `mcb = 0` for recalibrated forecasts; `unc` is the best constant score** -/
+theorem C06_zero_and_best_pinball (sf : SF ℝ) (hk : sf.kind = .pinball) (he : sf.elem = none)
+    (hα : 0 < sf.α ∧ sf.α < 1) (ys : List ℝ) (cols : List (List ℝ)) (w : Option (List ℝ))
+    (rows : List (DecompRow ℝ)) (h : decompose sf none none ys cols w = .ok rows) :
+    (∀ i (hi : i < cols.length) (hr : i < rows.length) (X₀ tx₀ ty₀ : List ℝ),
+      isoFit (some .quantile) sf.α true X₀ ys w = .ok (tx₀, ty₀) →
+      cols[i] = X₀.map (interp tx₀ ty₀) → rows[i].mcb = 0) ∧
+    (∀ c s, sfMean sf ys (ys.map fun _ => c) w = .ok s → ∀ r ∈ rows, r.unc ≤ s) :=
+  ⟨fun i hi hr X₀ tx₀ ty₀ h₀ hx =>
+    C06_mcb_zero_of_recalibrated_abstract sf none none ys cols w rows h .quantile sf.α
+      (dec_validate_pinball sf hk he hα)
+      (fun y z => ((if y ≤ z then (1 : ℝ) else 0) - sf.α) * (z - y)) (fun _ => True)
+      (fun y _ z _ => dec_sfPair_pinball sf hk he hα y z)
+      (dec_fitOpt_pinball sf.α hα.1 hα.2 ys) (fun _ _ => trivial)
+      (dec_yminAllowed_of_ok sf ys w _ (dec_sfPair_pinball sf hk he hα _ _)) i hi hr X₀ tx₀ ty₀ h₀ hx,
+   fun c s hs =>
+    C06_unc_best_constant_abstract sf none none ys cols w rows h .quantile sf.α
+      (dec_validate_pinball sf hk he hα)
+      (fun y z => ((if y ≤ z then (1 : ℝ) else 0) - sf.α) * (z - y)) (fun _ => True)
+      (fun y _ z _ => dec_sfPair_pinball sf hk he hα y z)
+      (dec_fitOpt_pinball sf.α hα.1 hα.2 ys) (fun _ _ => trivial) c s trivial hs⟩
+
+/-- **Homogeneous expectile family: `mcb = 0` for recalibrated forecasts; `unc` is the best
+admissible constant score.**  `dec_hesFn α` is the effective functional and level: the mean for
+`α = 1/2`, else the `α`-expectile; `dec_hesZ h c` says that `c` is an admissible prediction
+(`1 < h ∨ 0 < c`). -/
+theorem C06_zero_and_best_hes_family (sf : SF ℝ) (h α : ℝ) (hs : dec_IsHES sf h α) (ys : List ℝ)
+    (cols : List (List ℝ)) (w : Option (List ℝ)) (rows : List (DecompRow ℝ))
+    (hd : decompose sf none none ys cols w = .ok rows)
+    (hallowed : dec_yminAllowed sf ys w = true) :
+    (∀ i (hi : i < cols.length) (hr : i < rows.length) (X₀ tx₀ ty₀ : List ℝ),
+      isoFit (some (dec_hesFn α).1) (dec_hesFn α).2 true X₀ ys w = .ok (tx₀, ty₀) →
+      cols[i] = X₀.map (interp tx₀ ty₀) → rows[i].mcb = 0) ∧
+    (∀ c s, dec_hesZ h c → sfMean sf ys (ys.map fun _ => c) w = .ok s → ∀ r ∈ rows, r.unc ≤ s) :=
+  dec_hes_zero_and_best hs ys cols w rows hd hallowed
+
+/-- **The whole homogeneous quantile family — `HomogeneousQuantileScore(degree=h, level=α)` for every
+real degree and level in `(0,1)`, and `PinballLoss(level=α)` (`h = 1`)** — with inferred functional
+(`quantile` at level `α`): whenever the smallest observation is an admissible prediction,
+`mcb ≥ 0` and `dsc ≥ 0`; `mcb = 0` for recalibrated forecasts; `unc` is the smallest average score
+of an admissible constant (`gDom h c`: `h = 1`, or `h` an odd integer `> 1`, or `0 < c`).
+The quantile fit is the mid-point construction on the lower-quantile PAVA blocks; it minimises every
+order-sensitive score of the quantile because such a score is constant on each block's quantile
+interval (`dec_quant_flat`, `dec_quantileFit_optimal`). -/
+theorem C06_hqs_family (sf : SF ℝ) (h α : ℝ) (hs : dec_IsHQS sf h α) (ys : List ℝ)
+    (cols : List (List ℝ)) (w : Option (List ℝ)) (rows : List (DecompRow ℝ))
+    (hd : decompose sf none none ys cols w = .ok rows)
+    (hallowed : dec_yminAllowed sf ys w = true) :
+    (∀ r ∈ rows, 0 ≤ r.mcb ∧ 0 ≤ r.dsc) ∧
+    (∀ i (hi : i < cols.length) (hr : i < rows.length) (X₀ tx₀ ty₀ : List ℝ),
+      isoFit (some .quantile) α true X₀ ys w = .ok (tx₀, ty₀) →
+      cols[i] = X₀.map (interp tx₀ ty₀) → rows[i].mcb = 0) ∧
+    (∀ c s, gDom h c → sfMean sf ys (ys.map fun _ => c) w = .ok s → ∀ r ∈ rows, r.unc ≤ s) :=
+  dec_hqs_all hs ys cols w rows hd hallowed
+
+/-- what the flag means for this family -/
+theorem C06_yminAllowed_hqs_family (sf : SF ℝ) (h α : ℝ) (hs : dec_IsHQS sf h α) (ys : List ℝ)
+    (w : Option (List ℝ)) :
+    dec_yminAllowed sf ys w = true ↔ hqsDom h ys[0]! (ys.foldl min ys[0]!) := by
+  rw [dec_yminAllowed_iff]
+  constructor
+  · intro hok
+    obtain ⟨v, hv⟩ := (dec_sfPair_spec sf _ _).1 hok
+    by_contra hn
+    rw [(dec_sfPair_hqs hs _ _).2 hn] at hv
+    cases hv
+  · intro hd
+    by_contra hn
+    have := (dec_sfPair_hqs hs ys[0]! (ys.foldl min ys[0]!)).1 hd
+    rw [(dec_sfPair_spec sf _ _).2 hn] at this
+    cases this
+
+/-- **`ElementaryScore(eta=η, functional=f₀, level=α)`, over any ordered field** (its formula uses
+no transcendental operation), for each of the four functionals and every threshold `η`, with
+inferred functional and level: `mcb ≥ 0`, `dsc ≥ 0`; `mcb = 0` for recalibrated forecasts; `unc` is
+the smallest average score of a constant forecast.  No proviso: every prediction is admissible.
+`dec_elemEff f₀ α` is the effective functional and level (`median ↦ (quantile, 1/2)`). -/
+theorem C06_elementary_score (sf : SF K) (f₀ : Functional) (η : K)
+    (he : sf.elem = some (some f₀, η)) (hα0 : 0 < sf.α) (hα1 : sf.α < 1) (ys : List K)
+    (cols : List (List K)) (w : Option (List K)) (rows : List (DecompRow K))
+    (h : decompose sf none none ys cols w = .ok rows) :
+    (∀ r ∈ rows, 0 ≤ r.mcb ∧ 0 ≤ r.dsc) ∧
+    (∀ i (hi : i < cols.length) (hr : i < rows.length) (X₀ tx₀ ty₀ : List K),
+      isoFit (some (dec_elemEff f₀ sf.α).1) (dec_elemEff f₀ sf.α).2 true X₀ ys w = .ok (tx₀, ty₀) →
+      cols[i] = X₀.map (interp tx₀ ty₀) → rows[i].mcb = 0) ∧
+    (∀ c s, sfMean sf ys (ys.map fun _ => c) w = .ok s → ∀ r ∈ rows, r.unc ≤ s) := by
+  have hv := dec_validate_elem sf f₀ η he hα0 hα1
+  have hS : ∀ y ∈ ys, ∀ z, (fun _ : K => True) z → sfPair sf y z = .ok (dec_elemVal f₀ sf.α η y z) :=
+    fun y _ z _ => dec_sfPair_elem sf f₀ η he hα0 hα1 y z
+  have hopt := dec_elem_fitOpt f₀ sf.α η hα0 hα1 ys
+  have hall := dec_yminAllowed_of_ok sf ys w _ (dec_sfPair_elem sf f₀ η he hα0 hα1 _ _)
+  exact ⟨C06_mcb_dsc_nonneg_abstract sf none none ys cols w rows h _ _ hv _ _ hS hopt
+      (fun _ _ => trivial) hall (fun _ _ => trivial) (fun _ _ _ _ => trivial),
+    fun i hi hr X₀ tx₀ ty₀ h₀ hx =>
+      C06_mcb_zero_of_recalibrated_abstract sf none none ys cols w rows h _ _ hv _ _ hS hopt
+        (fun _ _ => trivial) hall i hi hr X₀ tx₀ ty₀ h₀ hx,
+    fun c s hs =>
+      C06_unc_best_constant_abstract sf none none ys cols w rows h _ _ hv _ _ hS hopt
+        (fun _ _ => trivial) c s trivial hs⟩
+
+/-! ## Non-vacuity -/
+
+section Examples
+/-- `ScoreOps` on `ℚ` for the examples (the squared error calls none of these operations) -/
+local instance c06DummyOps : ScoreOps ℚ := ⟨fun a _ => a, id, abs, fun _ => False, fun _ => inferInstance⟩
+
+/-- the hypothesis `decompose … = .ok rows` (all C06 theorems): squared error, observations with
+ties, two forecast columns — one unsorted with ties, one constant —, integer weights.
+`#eval` gives `[(29/50, 9/100, 21/100, 7/10), (529/100, 0, 21/100, 11/2)]`. -/
+example : ∃ rows, decompose (⟨.squaredError, 0, 1 / 2, none⟩ : SF ℚ) none none [0, 0, 1, 1]
+    [[-1, 1, 1, 2], [3, 3, 3, 3]] (some [1, 2, 3, 4]) = .ok rows :=
+  dec_decompose_sq_ok _ rfl rfl none (Or.inl rfl) none _ _ _ (by simp) (by simp) (by simp)
+    (by simp [dec_wts])
+
+/-- … and unweighted -/
+example : ∃ rows, decompose (⟨.squaredError, 0, 1 / 2, none⟩ : SF ℚ) none none [0, 0, 1, 1]
+    [[-1, 1, 1, 2]] none = .ok rows :=
+  dec_decompose_sq_ok _ rfl rfl none (Or.inl rfl) none _ _ _ (by simp) (by simp) (by simp)
+    (by simp [dec_wts])
+
+/-- `C06_dsc_zero_of_constant`: a constant column -/
+example : ∀ a ∈ ([3, 3, 3, 3] : List ℚ), ∀ b ∈ ([3, 3, 3, 3] : List ℚ), a = b := by simp
+
+/-- `C06_mcb_zero_of_recalibrated_*`: the fit on some forecast `X₀` exists -/
+example : ∃ tx ty, isoFit (some .mean) (1 / 2 : ℚ) true [-1, 1, 1, 2] [0, 0, 1, 1]
+    (some [1, 2, 3, 4]) = .ok (tx, ty) :=
+  dec_isoFit_mean_ok _ _ _ _ (by simp) (by simp) (by simp) (by simp [dec_wts])
+
+/-- `C06_errors`: an out-of-range level, a short column, a short weight vector -/
+example : (0 : ℚ) ≤ 0 ∨ (1 : ℚ) ≤ 0 := Or.inl le_rfl
+example : ∃ c ∈ ([[1, 2, 3]] : List (List ℚ)), c.length ≠ ([0, 0, 1, 1] : List ℚ).length :=
+  ⟨[1, 2, 3], by simp, by simp⟩
+example : ([1, 2] : List ℚ).length ≠ ([0, 0, 1, 1] : List ℚ).length := by simp
+
+/-- `C06_nonneg_pinball`, `C06_nonneg_hes_family`: admissible score objects at `ℝ` -/
+example : (0 : ℝ) < 1 / 4 ∧ (1 / 4 : ℝ) < 1 := by norm_num
+example : dec_IsHES (⟨.poisson, 0, 0, none⟩ : SF ℝ) 1 (1 / 2) := ⟨rfl, Or.inr (Or.inr (Or.inl ⟨rfl, rfl, rfl⟩))⟩
+example : dec_IsHES (⟨.hes, 3 / 2, 1 / 4, none⟩ : SF ℝ) (3 / 2) (1 / 4) :=
+  ⟨rfl, Or.inl ⟨rfl, rfl, rfl, by norm_num, by norm_num⟩⟩
+example : dec_IsHQS (⟨.hqs, 2, 1 / 4, none⟩ : SF ℝ) 2 (1 / 4) :=
+  ⟨rfl, rfl, by norm_num, by norm_num, Or.inl ⟨rfl, rfl⟩⟩
+example : dec_IsHQS (⟨.pinball, 0, 1 / 4, none⟩ : SF ℝ) 1 (1 / 4) :=
+  ⟨rfl, rfl, by norm_num, by norm_num, Or.inr ⟨rfl, rfl⟩⟩
+
+/-- `C06_elementary_score`: an elementary score for the 1/4-quantile with threshold 3/2 -/
+example : (⟨.squaredError, 0, 1 / 4, some (some .quantile, 3 / 2)⟩ : SF ℚ).elem
+      = some (some .quantile, 3 / 2) ∧ (0 : ℚ) < 1 / 4 ∧ (1 / 4 : ℚ) < 1 := by
+  refine ⟨rfl, by norm_num, by norm_num⟩
+
+/-- … and the flag `yminAllowed` holds for Poisson counts without zeros, fails with a zero count -/
+example : dec_yminAllowed (⟨.poisson, 0, 0, none⟩ : SF ℝ) [2, 1, 3] none = true := by
+  rw [C06_yminAllowed_hes_family _ 1 (1 / 2) ⟨rfl, Or.inr (Or.inr (Or.inl ⟨rfl, rfl, rfl⟩))⟩,
+    cons_hesDom_one]
+  norm_num
+
+example : ¬ dec_yminAllowed (⟨.poisson, 0, 0, none⟩ : SF ℝ) [2, 0, 3] none = true := by
+  rw [C06_yminAllowed_hes_family _ 1 (1 / 2) ⟨rfl, Or.inr (Or.inr (Or.inl ⟨rfl, rfl, rfl⟩))⟩,
+    cons_hesDom_one]
+  norm_num
+
+end Examples
+
 end MD.Props
+
+/-
+Sanity checks (`#eval`, not part of the proofs).  At `Rat` (with a dummy `ScoreOps Rat`):
+  decompose sq none none [0,0,1,1] [[-1,1,1,2]] none            = ok [(5/8, 1/8, 1/4, 3/4)]
+  decompose sq none none [0,0,1,1] [[-1,1,1,2],[3,3,3,3]] (some [1,2,3,4])
+                                     = ok [(29/50, 9/100, 21/100, 7/10), (529/100, 0, 21/100, 11/2)]
+  decompose sq none none [2,2,2] [[1,2,3]] none                 = ok [(2/3, 0, 0, 2/3)]
+  decompose sq (some none) none …                               = error valueError
+  decompose sq none none [0,0,1,1] [[-1,1,1]] none              = error valueError
+  decompose sq none none [0,0,1,1] [[-1,1,1,2]] (some [1,2])    = error valueError
+(rows are `(mcb, dsc, unc, score)`; `sq` = squared error).  At `Float`:
+  decompose {kind := .squaredError, …} none none [0,0,1,1] [[-1,1,1,2]] none
+                                                                = ok [(0.625, 0.125, 0.25, 0.75)]
+The sign statements need the functional of the score: overriding it gives negative components,
+  decompose sq (some (some .quantile)) (some (1/2)) [0,0,0,10] [[1,1,2,2]] none
+                                                                = ok [(-15/2, 0, 25, 35/2)].
+Not covered by the sign theorems: `LogLoss` (the real model of `xlogy`/`log` agrees with numpy only
+on `(0,1)`-valued predictions, while recalibrated values of binary data hit `0` and `1`).
+A random search at `Rat` (3000 data sets per functional) found no negative `mcb`/`dsc` for
+`ElementaryScore`, in line with `C06_elementary_score`.
+-/
+
+/-
+`#print axioms` (observed with `lake env lean`):
+'MD.Props.C06_rows' depends on axioms: [propext, Quot.sound]
+'MD.Props.C06_identity' depends on axioms: [propext, Quot.sound]
+'MD.Props.C06_score_is_plain_average' depends on axioms: [propext, Quot.sound]
+'MD.Props.C06_unc_is_marginal_score' depends on axioms: [propext, Quot.sound]
+'MD.Props.C06_unc_forecast_free' depends on axioms: [propext, Quot.sound]
+'MD.Props.C06_errors' depends on axioms: [propext, Quot.sound]
+'MD.Props.C06_error_no_level' depends on axioms: [propext, Quot.sound]
+'MD.Props.C06_error_empty' depends on axioms: [propext, Classical.choice, Quot.sound]
+'MD.Props.C06_mcb_dsc_nonneg_abstract' depends on axioms: [propext, Classical.choice, Quot.sound]
+'MD.Props.C06_mcb_nonneg_abstract' depends on axioms: [propext, Classical.choice, Quot.sound]
+'MD.Props.C06_dsc_nonneg_abstract' depends on axioms: [propext, Classical.choice, Quot.sound]
+'MD.Props.C06_recal_optimal' depends on axioms: [propext, Classical.choice, Quot.sound]
+'MD.Props.C06_fitOpt_of_order_sensitive' depends on axioms: [propext, Classical.choice, Quot.sound]
+'MD.Props.C06_nonneg_squared_error' depends on axioms: [propext, Classical.choice, Quot.sound]
+'MD.Props.C06_mcb_nonneg_squared_error' depends on axioms: [propext, Classical.choice, Quot.sound]
+'MD.Props.C06_dsc_nonneg_squared_error' depends on axioms: [propext, Classical.choice, Quot.sound]
+'MD.Props.C06_dsc_zero_of_constant' depends on axioms: [propext, Classical.choice, Quot.sound]
+'MD.Props.C06_recal_of_constant' depends on axioms: [propext, Classical.choice, Quot.sound]
+'MD.Props.C06_mcb_zero_of_recalibrated' depends on axioms: [propext, Quot.sound]
+'MD.Props.C06_mcb_zero_of_recalibrated_abstract' depends on axioms: [propext, Classical.choice, Quot.sound]
+'MD.Props.C06_mcb_zero_of_recalibrated_squared_error' depends on axioms: [propext, Classical.choice, Quot.sound]
+'MD.Props.C06_dsc_zero_of_constant_squared_error' depends on axioms: [propext, Classical.choice, Quot.sound]
+'MD.Props.C06_nonneg_pinball' depends on axioms: [propext, Classical.choice, Quot.sound]
+'MD.Props.C06_nonneg_hes_family' depends on axioms: [propext, Classical.choice, Quot.sound]
+'MD.Props.C06_yminAllowed_hes_family' depends on axioms: [propext, Classical.choice, Quot.sound]
+'MD.Props.C06_unc_best_constant_abstract' depends on axioms: [propext, Classical.choice, Quot.sound]
+'MD.Props.C06_unc_best_constant_squared_error' depends on axioms: [propext, Classical.choice, Quot.sound]
+'MD.Props.C06_zero_and_best_pinball' depends on axioms: [propext, Classical.choice, Quot.sound]
+'MD.Props.C06_zero_and_best_hes_family' depends on axioms: [propext, Classical.choice, Quot.sound]
+'MD.Props.C06_hqs_family' depends on axioms: [propext, Classical.choice, Quot.sound]
+'MD.Props.C06_yminAllowed_hqs_family' depends on axioms: [propext, Classical.choice, Quot.sound]
+'MD.Props.C06_elementary_score' depends on axioms: [propext, Classical.choice, Quot.sound]
+-/
